@@ -51,3 +51,24 @@ package tchannel
 //@   label failure-error-is-queued-before-the-pending-count-is-released
 //@   atcall decrementPending item.isOriginator && reason != _relayErrorSourceConnSlow ==> errAttempts(r.conn) == old(errAttempts(r.conn)) + 1
 //@   property C07
+
+// Ordering of the two looks that decide a close transition (C07 mechanisms
+// "connection close state machine driven by exchange counts" and "channel state
+// derived from the minimum connection state"): what may have been changed by a
+// concurrent Close is looked at LAST, so that a call or a Close that got in
+// before is seen.
+//  * checkExchanges reads the connection state first and the exchange counts
+//    after it (admission re-checks the state after registering an exchange: a
+//    count read before the state can miss a call accepted before Close);
+//  * connectionCloseStateChange untracks the closed connection first and reads
+//    the channel state after it (Close leaves the final step to this callback
+//    when it still sees the connection tracked).
+// (calls(F): number of calls of F made so far by the function's own body.)
+//@ func (c *Connection) checkExchanges()
+//@   label counts-are-read-after-the-state
+//@   atcall count calls(readState) >= 1
+//@   property C07
+//@ func (ch *Channel) connectionCloseStateChange(c *Connection)
+//@   label channel-state-is-read-after-the-connection-is-untracked
+//@   atcall State calls(removeClosedConn) == 1
+//@   property C07
